@@ -641,6 +641,26 @@ func modeC08(thorough bool, only string) {
 				par(14, func(i int) { in.send("udp", "127.0.1.1", mkq(n("r0t60d0")), 4*time.Second, nil) })
 			}, one(rq, 0, 4700, 5200)...)
 		}
+		if useRedis == "both" {
+			// a small memory cache in front of redis: the 12 s answers are pushed out of memory by 300 short-lived
+			// names, found again in redis at 7 s (outside the refresh window) and copied back into memory with
+			// their original times - and gone from both after their lifetime
+			small := base
+			small.cacheMem = 16 << 10
+			for k := 0; k < 4; k++ {
+				pm := n("r0t12d0")
+				add(fmt.Sprintf("t-promote%d", k), small, func(in *inst) {
+					go func() {
+						time.Sleep(150 * time.Millisecond)
+						par(10, func(i int) {
+							for j := 0; j < 30; j++ {
+								in.send("udp", "127.0.1.1", mkq(n("r0t1d0")), 4*time.Second, nil) // short-lived: memory has room again at 2.5 s
+							}
+						})
+					}()
+				}, one(pm, 0, 7000, 16200)...)
+			}
+		}
 		if thorough {
 			add("t-nx30", base, nil, one(n("r3t600d0fA"), 0, 15000, 28000, 32500)...)
 			add("t-nodata30", base, nil, one(n("r0t300d0fN"), 0, 10000, 32500)...)
